@@ -35,7 +35,7 @@ LEVEL_TEXT = ("Exploration: ~40k (quick) / ~1M (thorough) (type, datum) cases, e
 LEVEL_NOTE = "Trusted: reference model's coercion table (vlib/model.py), restoration of settings.deserialization.coerce after each case."
 
 BAIT = ["1", " 1", "1.0", "1e3", "0x1", "-2", "3", "0", "true", "True", "TRUE", "yes", "Y", "off", "Ko", "ok", "maybe", "2", "tru",
-        "", " ", "null", "None", "1.5", "abc", "nan"]
+        "", " ", "null", "None", "1.5", "abc", "nan", "13", "13.0", 13]
 
 
 class Marker:
@@ -85,7 +85,7 @@ def data_fn(draw, prog, t, opts):
 
 
 def strategy(tier):
-    cfg = {"max_depth": 3 if tier == "quick" else 4}
+    cfg = {"max_depth": 3 if tier == "quick" else 4, "leaf_validators": True}
     return tdcase.td_cases(cfg, n_data=(5, 10), data_fn=data_fn)
 
 
